@@ -68,6 +68,7 @@ func main() {
 	}
 	r.Set("transactions", txs)
 	r.Set("pool_configurations", allCfgs)
+	r.Set("boundary_senders", u.boundaryReport())
 	if orderControlled = seamActive(u, "default"); !orderControlled {
 		r.Capped("the build has no promotion-order seam (tools/gen_c15_maporder.py did not find the loop in promoteExecutables): Go's random map order decides which queued sender is promoted first; orders are not enumerated and counts may vary between runs")
 	}
@@ -118,6 +119,13 @@ func main() {
 				"confidential-quota-exceeded:utxoTxs", "max-reap-size-exceeded", "reap-n-below-pool-content"} {
 				if limits[l] == 0 {
 					vk.Fatalf("vacuous bound: no explored history reaches the limit %q", l)
+				}
+			}
+			// exact balance boundaries: the sender that owns exactly cost(T1)+cost(T2) must get both offered somewhere (the
+			// one that owns 1 wei less never does: that would be a violation of the oracle)
+			for _, k := range boundaryKinds {
+				if limits["boundary-both-offered:"+k.key+"x"] == 0 {
+					vk.Fatalf("vacuous boundary: sender %sx owns exactly what execution debits for its two transactions (%s, then a cheap transfer) but no explored history offers both", k.key, k.what)
 				}
 			}
 		}
